@@ -144,6 +144,7 @@ class Check(BaseCheck):
             specs.append({'campaign': 'fault_repetition', 'i': i, 'N': 260 if q else 1500, 'seed': seed})
         specs.append({'campaign': 'retention', 'K': 120 if q else 400, 'R': 8 if q else 30, 'seed': seed, 'mix': 'failing'})
         specs.append({'campaign': 'retention', 'K': 120 if q else 400, 'R': 8 if q else 30, 'seed': seed, 'mix': 'succeeding'})
+        specs.append({'campaign': 'retention', 'K': 600 if q else 3000, 'R': 8 if q else 30, 'seed': seed, 'mix': 'fresh'})
         return specs
 
     def run(self, spec, rec):
@@ -452,7 +453,24 @@ class Check(BaseCheck):
                     tb = tb.tb_next
             return n
 
+        fresh_counter = [0]
+
+        def fresh_formula():
+            # references, names and literals that were never seen before: a long-lived process meets new ones all the time
+            fresh_counter[0] += 1
+            k = fresh_counter[0]
+            from ..models import cells as mcells
+            lab = '%s%d' % (mcells.col_label(k % 16000), 1 + k % 900000)
+            lab2 = '%s%d' % (mcells.col_label((k * 7) % 16000), 1 + (k * 13) % 900000)
+            t = k % 9
+            return ['%s+1' % lab, '%s&"s%d"' % (lab, k), 'SUM(%s:%s)' % (lab, lab2), 'nv_%d_x' % k, 'NFN%d_(1)' % k, '%d*2' % (k + 1000), 'IFERROR(nv_%d_y,%d)' % (k, k),
+                    'xa+%d.5' % k, '$%s+%s' % (lab, lab2.lower())][t]
+
         def one_pass():
+            if spec['mix'] == 'fresh':
+                for _ in range(K):
+                    p.parse(fresh_formula())
+                return
             for f in corpus:
                 p.parse(f)
         for _ in range(2):
